@@ -90,4 +90,23 @@ PROPS = {
         "guards": ["accepted", "refused", "status-409", "status-413", "status-503"],
         "parts": [{"engine": "front", "test": "TestProp_C15_Publish", "quick": 3000, "thorough": 250000}],
     },
+    "C18": {
+        "rule": "reload tier: (old, new) config pairs (new = old with 1-3 edits: route added/removed, auth kind/secret changed, pull path remapped, pull tokens "
+                "moved between global and route, admin token, route order, methods) and a probe battery (per route path: anonymous / each basic credential / "
+                "each HMAC secret / GET; every pull endpoint x every token; admin x every token); mode pause: the real reloadConfig is paused at a verif "
+                "hook between its state writes and the battery must answer, probe by probe, like an entirely-old or entirely-new process; mode body-read: "
+                "an in-flight ingress request triggers the reload from inside its body Read; mode failed: 9 kinds of bad new content (removed, directory, "
+                "garbage, truncated, uncompilable, unloadable secret, three restart-requiring changes) must leave every answer as an untouched process "
+                "gives it | file tier: a child process runs the real writeFileAtomic and is SIGKILLed at each hook label; the file must hold exactly the "
+                "old or the new bytes | rollback tier: management upsert/delete through the Admin API with a fault injected after the write (secret env "
+                "removed so the reload fails; backlog appearing) must restore the previous bytes and behaviour; non-trivial = old and new differ in >=1 "
+                "battery answer, a crash label actually hit, or an injected fault",
+        "level": "fault_enumeration",
+        "assumptions": [SAMPLED, "SIGKILL keeps the page cache: power-loss durability of the rename is not decided", "mid-request mixture is explored for ingress requests only (pull/admin requests have no yield point between their two state reads)",
+                        "--watch/SIGHUP delivery itself is not exercised; reloadConfig is called directly"],
+        "guards": ["mode-pause", "mode-failed", "mode-body-read", "configs-differ-in-battery", "reload-inside-request", "holds-old", "holds-new", "fault-reload-fails"],
+        "parts": [{"engine": "front", "test": "TestProp_C18_Reload", "quick": 400, "thorough": 30000},
+                  {"engine": "front", "test": "TestProp_C18_FileCrash", "quick": 150, "thorough": 3000},
+                  {"engine": "front", "test": "TestProp_C18_MgmtRollback", "quick": 60, "thorough": 600}],
+    },
 }
